@@ -152,7 +152,8 @@ func main() {
 			hs = append(hs, genHistory(r, long))
 		}
 	}
-	if *replay == "" && (*prop == "" || *prop == "C18" || *prop == "C04") {
+	if *replay == "" && (*prop == "" || *prop == "C18" || *prop == "C04" || *prop == "C01") {
+		// (C01: the write-fault histories in which every Write returned nil all the same)
 		// Storage faults are outside C18's quantifier; this leg exercises the error paths of a rotation
 		// on single-stream MPEG-TS / fMP4 muxers, where the unchanged code recovers from a failed file
 		// creation (with several streams or in Low-Latency mode it panics: DESIGN.md 12.3, observation O1).
